@@ -375,6 +375,19 @@ Proof.
     + destruct (r_mu (getr s r)); [discriminate|]. inversion H; subst; clear H. simpl.
       eapply ref_on_same; [apply same_ref_refl | | | exact Inv]; intros n'; cnt2; destruct (r_comp (getr s r)); simpl; lia.
     + inversion H; subst; clear H. simpl. ref_leaf Inv.
+  - (* FOutAdd: addOut with a released dependant nobody else knows *)
+    destruct (Nat.ltb n (length (s_nodes s))) eqn:Ln; [|discriminate]. apply Nat.ltb_lt in Ln.
+    unfold g_add_out_released in H. inversion H; subst; clear H. simpl.
+    intros m. destruct (Inv m) as [I1 I2]. simpl in I1, I2. rewrite getn_setn.
+    assert (C1 : forall p, (p FPhInv = false) -> (forall x, p (FRelEnter x) = false) ->
+                 count p (concat ((if n_inv (getn (s_nodes s) n) then [[FPhInv]] else []) ++ (if is_nil (n_out (getn (s_nodes s) n)) then [[FRelEnter n]] else []))) = 0).
+    { intros p P1 P2. destruct (n_inv (getn (s_nodes s) n)), (is_nil (n_out (getn (s_nodes s) n))); simpl; rewrite ?P1, ?P2; reflexivity. }
+    rewrite ?count_app in *. rewrite (C1 (cleanup_of m)) by reflexivity.
+    destruct (Nat.eqb n m && Nat.ltb n (length (s_nodes s))) eqn:E.
+    + apply andb_true_iff in E. destruct E as [E _]. apply Nat.eqb_eq in E. subst m. simpl. split; [lia|].
+      intros _ Ho. right. rewrite Ho. simpl. destruct (n_inv (getn (s_nodes s) n)); simpl; rewrite Nat.eqb_refl; lia.
+    + split; [lia|]. intros Hh Ho. destruct (I2 Hh Ho) as [K|K]; [left; exact K | right; lia].
+  - (* FPhInv *) inversion H; subst; clear H. ref_leaf Inv.
 Qed.
 
 Lemma exhausted_cleanup : forall n f, exhausted f = true -> cleanup_of n f = false.
@@ -407,6 +420,9 @@ Proof.
   - simpl in H. destruct (Nat.eqb (n_timer (getN s n)) 1); [|discriminate]. inversion H; subst; clear H.
     rewrite frames_spawn. unfold all_frames in *. simpl.
     eapply ref_on_same; [ | | | exact Inv]; [unfold getN; same_ref_tac | |]; intros n'; rewrite count_app; simpl; lia.
+  - simpl in H. destruct (Nat.ltb slot (length (s_slots s))); [|discriminate]. inversion H; subst; clear H.
+    rewrite frames_spawn. unfold all_frames in *. simpl.
+    eapply ref_on_same; [apply same_ref_refl | | | exact Inv]; intros n; rewrite count_app; simpl; lia.
 Qed.
 
 Lemma init_nodes_fields : forall k j n,
